@@ -71,3 +71,15 @@ Example c02_nonvacuous_animals :
   Physical ex_in ToAnimals ex_alloc /\ achieves ex_in ToAnimals ex_alloc 3 /\
   exists a, Feasible ex_in ToAnimals a /\ alloc_eq (proj a) ex_alloc /\ a Obj 0%nat == 3.
 Proof. exact LP_C02.c02_nonvacuous_animals. Qed.
+
+(* ---------- the model's literals are the source's literals (re-read from optimizer.py on every run) ---------- *)
+From Allfed Require Import Gen.OptimizerConsts Proofs.LPConsts.
+Theorem c02_literals_from_source :
+  (forall i, pin_bounds i = if Qlt_le_dec (pop i) 10000000 then src_pin_small else src_pin_large) /\
+  src_pin_switch_pop == 10000000 /\
+  (forall v, model_floor v == v * src_floor_humans /\ model_floor v == v * src_floor_animals) /\
+  (forall i v, second_stage i ToHumans v = map (fun m => mk [t 1 Consumed m] Ge (model_floor v)) (months i)) /\
+  src_weight_feed == 2 # 3 /\ src_weight_biofuel == 1 # 3 /\
+  src_resource_order = model_resource_order.
+Proof. exact lp_literals_match_source. Qed.
+Print Assumptions c02_literals_from_source.
